@@ -294,6 +294,14 @@ func genCtx(router, app *pkg, fields []string) string {
 		fmt.Fprintf(&b, "(%d, %d)", i, rf.kind[f])
 	}
 	b.WriteString("]\n\n")
+	b.WriteString("/-- the same by field name (independent of the declaration order) -/\ndef resetKindByName : List (String × Nat) := [")
+	for i, f := range fields {
+		if i > 0 {
+			b.WriteString(", ")
+		}
+		fmt.Fprintf(&b, "(%s, %d)", leanStr(f), rf.kind[f])
+	}
+	b.WriteString("]\n\n")
 	var consts []string
 	for f, c := range rf.constSrc {
 		consts = append(consts, fmt.Sprintf("(%s, %s)", idxList(fields, []string{f})[1:len(idxList(fields, []string{f}))-1], leanStr(c)))
@@ -302,9 +310,9 @@ func genCtx(router, app *pkg, fields []string) string {
 	b.WriteString("def resetConst : List (Nat × String) := [" + strings.Join(consts, ", ") + "]\n\n")
 	fmt.Fprintf(&b, "/-- `for i := range min(c.%s, %d)` clears the used parameter slots -/\ndef slotBound : Nat := %d\n", rf.slotGuard, rf.slotBound, rf.slotBound)
 	if rf.slotGuard != "" {
-		fmt.Fprintf(&b, "def slotGuard : Nat := %s\n\n", strings.Trim(idxList(fields, []string{rf.slotGuard}), "[]"))
+		fmt.Fprintf(&b, "def slotGuard : Nat := %s\ndef slotGuardName : String := %s\n\n", strings.Trim(idxList(fields, []string{rf.slotGuard}), "[]"), leanStr(rf.slotGuard))
 	} else {
-		b.WriteString("def slotGuard : Nat := 1000000\n\n")
+		b.WriteString("def slotGuard : Nat := 1000000\ndef slotGuardName : String := \"\"\n\n")
 	}
 	// assignment-only Context methods
 	x := &extractor{p: router}
